@@ -4,6 +4,7 @@ import (
 	"bytes"
 	"fmt"
 	"io"
+	"runtime/debug"
 	"sort"
 	"testing"
 
@@ -187,7 +188,7 @@ func TestC06(t *testing.T) {
 func safelyCut(c c06Case, fz *c06Frame, rec *stat.Rec) (f *stat.Failure) {
 	defer func() {
 		if r := recover(); r != nil {
-			f = stat.Failf("C06/panic", "panic: %v", r)
+			f = panicFailure("C06", r, debug.Stack())
 		}
 	}()
 	return runC06Cut(c, fz, rec)
